@@ -39,6 +39,14 @@ pub struct TreeSpec {
     pub pab: u64,
     /// preferred index j for the "parked then connected" order (block j + 1 delivered before block j)
     pub park_at: Option<usize>,
+    /// oracle-only family: just before tree block `.0` is delivered, has_checkpoint is set on the
+    /// stored block `.1`; `.2` = the reorganisation is expected to be refused without a trace
+    pub checkpoint: Option<(usize, usize, bool)>,
+    /// oracle-only family: the delivery node runs with the browser flag (golden-ticket density bypass)
+    pub browser: bool,
+    /// oracle-only family: the delivered version of this tree block carries a transfer that spends
+    /// the same input twice, so Block::generate fails and add_block refuses it before storage
+    pub dup_input_at: Option<usize>,
 }
 
 pub struct BuiltTree {
@@ -226,6 +234,25 @@ pub async fn build_node(
             delivered.previous_block_hash = built.blocks[p].hash;
             resign(&mut delivered, &builder.sk);
         }
+    }
+    if spec.dup_input_at == Some(i) {
+        // same input twice in one transfer: Block::generate reports a double spend
+        let mut done = false;
+        for tx in delivered.transactions.iter_mut() {
+            if !done && tx.transaction_type as u8 == 0 && !tx.from.is_empty() {
+                let sl = tx.from[0].clone();
+                tx.from.push(sl);
+                done = true;
+            }
+        }
+        if !done {
+            drop_reason("no transfer to duplicate an input in");
+            return None;
+        }
+        // as received from the wire: the per-block table of spent slips is not built yet
+        delivered.slips_spent_this_block.clear();
+        delivered.created_hashmap_of_slips_spent_this_block = false;
+        is_valid = false;
     }
     if ns.invalid {
         delivered.burnfee += 1 + ns.bf_boost;
@@ -478,6 +505,7 @@ pub async fn deliver_with(t: &BuiltTree, int: &mut Interned, order: &[usize], al
     let mut np = params(t.spec.gp, t.spec.loading_completed);
     np.prune_after_blocks = t.spec.pab;
     let mut node = Node::new(&np, 1);
+    node.cfg.browser = t.spec.browser;
     let mut out = RunOut { obs: vec![], rows: vec![], delivered: vec![], first_orphan: None, first_purge_known: None, first_orphan_effect: None, ring_surplus: vec![], wallet_slips: vec![], skipped: 0 };
     saito_core::core::consensus::blockchain::VERIF_WIND_STEPS.with(|c| c.set((0, u64::MAX)));
     for &i in order {
@@ -516,6 +544,13 @@ pub async fn deliver_with(t: &BuiltTree, int: &mut Interned, order: &[usize], al
         if parent_known && out.first_purge_known.is_none() && !node.blockchain.blocks.is_empty() {
             if let Some(id) = purge_known_class(&node, t, i) {
                 out.first_purge_known = Some((out.delivered.len(), id));
+            }
+        }
+        if let Some((trig, target, _)) = t.spec.checkpoint {
+            if i == trig {
+                if let Some(bk) = node.blockchain.blocks.get_mut(&t.blocks[target].hash) {
+                    bk.has_checkpoint = true;
+                }
             }
         }
         out.delivered.push(i);
@@ -856,6 +891,9 @@ pub fn empty_obs() -> Obs {
 
 /// golden-ticket density as the code decides it for a chain whose tip is `i`
 pub fn gt_ok_at(t: &BuiltTree, stored: &BTreeSet<SaitoHash>, i: usize) -> bool {
+    if t.spec.browser {
+        return true; // density rule bypassed on browser / spv nodes
+    }
     let by_hash: BTreeMap<SaitoHash, usize> =
         t.blocks.iter().enumerate().map(|(k, b)| (b.hash, k)).collect();
     let mut depth = 0u64;
@@ -1041,7 +1079,7 @@ pub fn random_spec(rng: &mut Rng, max_nodes: usize, gp: u64, invalid_pct: u64, l
         });
     }
     let pab = *rng.pick(&[2u64, 3, 8, 8]);
-    TreeSpec { gp, nodes, n_outputs, loading_completed: loading, pab, park_at: None }
+    TreeSpec { gp, nodes, n_outputs, loading_completed: loading, pab, park_at: None, checkpoint: None, browser: false, dup_input_at: None }
 }
 
 /// Scripted two-branch forks: common prefix, a main branch and a side branch with chosen
@@ -1138,7 +1176,7 @@ pub fn fork_family(rng: &mut Rng, k: usize) -> TreeSpec {
         }
     }
     let pab = if deep { 8 } else { [2u64, 8, 3][(k / 19) % 3] };
-    TreeSpec { gp, nodes, n_outputs, loading_completed: (k / 37) % 3 == 1, pab, park_at: None }
+    TreeSpec { gp, nodes, n_outputs, loading_completed: (k / 37) % 3 == 1, pab, park_at: None, checkpoint: None, browser: false, dup_input_at: None }
 }
 
 /// Long chains with late forks, for the purge regime (ids beyond 2 * genesis_period, ring
@@ -1201,7 +1239,7 @@ pub fn long_family(rng: &mut Rng, k: usize) -> TreeSpec {
         });
         parent = nodes.len() - 1;
     }
-    TreeSpec { gp, nodes, n_outputs, loading_completed: (k / 9) % 4 == 3, pab: 1_000_000, park_at: None }
+    TreeSpec { gp, nodes, n_outputs, loading_completed: (k / 9) % 4 == 3, pab: 1_000_000, park_at: None, checkpoint: None, browser: false, dup_input_at: None }
 }
 
 /// Linear chains for the "parked then connected" order: block q + 1 (id q + 2) is delivered before
@@ -1228,7 +1266,72 @@ pub fn parked_family(rng: &mut Rng, k: usize) -> TreeSpec {
             bf_boost: 0,
         });
     }
-    TreeSpec { gp, nodes, n_outputs, loading_completed: false, pab: [2u64, 1_000_000][(k / 5) % 2], park_at: Some(q) }
+    TreeSpec { gp, nodes, n_outputs, loading_completed: false, pab: [2u64, 1_000_000][(k / 5) % 2], park_at: Some(q), checkpoint: None, browser: false, dup_input_at: None }
+}
+
+/// Oracle-only families (not compared with the Coq model, which has no clause for them):
+///  kind 0: has_checkpoint is set on a stored block just before the block that triggers a
+///          reorganisation over it is delivered (target: old tip / deepest old block / first new block);
+///  kind 1: a block whose Block::generate fails (a transfer spending the same input twice);
+///  kind 2: delivery node with the browser flag, side chain without golden tickets must be adopted.
+pub fn special_family(rng: &mut Rng, k: usize) -> TreeSpec {
+    let kind = k % 3;
+    let gp = 8u64;
+    let n_outputs = 8;
+    let mut nodes = vec![NodeSpec { parent: None, gt: false, invalid: false, dt: 0, spend: None, bad_spend: false, bf_boost: 0 }];
+    nodes.push(NodeSpec { parent: Some(0), gt: true, invalid: false, dt: 10 * HEARTBEAT, spend: Some(0), bad_spend: false, bf_boost: 0 });
+    let fork = 1usize;
+    let mut spec = TreeSpec { gp, nodes: vec![], n_outputs, loading_completed: false, pab: 1_000_000, park_at: None, checkpoint: None, browser: false, dup_input_at: None };
+    match kind {
+        0 => {
+            let m = 1 + (k / 3) % 3;
+            let s = m + 1;
+            let mut parent = fork;
+            for i in 0..m {
+                nodes.push(NodeSpec { parent: Some(parent), gt: true, invalid: false, dt: 10 * HEARTBEAT + rng.below(3), spend: Some(1 + i), bad_spend: false, bf_boost: 0 });
+                parent = nodes.len() - 1;
+            }
+            let main_first = fork + 1;
+            let main_tip = parent;
+            parent = fork;
+            let side_first = nodes.len();
+            for i in 0..s {
+                nodes.push(NodeSpec { parent: Some(parent), gt: true, invalid: false, dt: 10 * HEARTBEAT + 5 + rng.below(3), spend: Some(4 + i % 4), bad_spend: false, bf_boost: 0 });
+                parent = nodes.len() - 1;
+            }
+            let trigger = nodes.len() - 1;
+            let (target, clean) = match (k / 9) % 3 {
+                0 => (main_tip, true),
+                1 => (main_first, main_first == main_tip),
+                _ => (side_first, false),
+            };
+            spec.checkpoint = Some((trigger, target, clean));
+        }
+        1 => {
+            let n = 4;
+            for i in 0..n {
+                nodes.push(NodeSpec { parent: Some(fork + i), gt: true, invalid: false, dt: 10 * HEARTBEAT + rng.below(3), spend: Some(1 + i), bad_spend: false, bf_boost: 0 });
+            }
+            spec.dup_input_at = Some(fork + 1 + (k / 3) % 3);
+        }
+        _ => {
+            let m = 4 + (k / 3) % 2;
+            let s = m + 2;
+            let mut parent = fork;
+            for i in 0..m {
+                nodes.push(NodeSpec { parent: Some(parent), gt: true, invalid: false, dt: 10 * HEARTBEAT + rng.below(3), spend: Some(1 + i % 6), bad_spend: false, bf_boost: 0 });
+                parent = nodes.len() - 1;
+            }
+            parent = fork;
+            for i in 0..s {
+                nodes.push(NodeSpec { parent: Some(parent), gt: false, invalid: false, dt: 10 * HEARTBEAT + 5 + rng.below(3), spend: Some(1 + i % 6), bad_spend: false, bf_boost: 0 });
+                parent = nodes.len() - 1;
+            }
+            spec.browser = true;
+        }
+    }
+    spec.nodes = nodes;
+    spec
 }
 
 /// a delivery order: parents-before-children mostly, sometimes shuffled, with duplicates
@@ -1360,8 +1463,17 @@ pub async fn run_property(profile: &Profile, args: &Args) {
     let n_family = if thorough { 1500 } else { 330 };
     let n_long = if thorough { 400 } else { 80 };
     let n_parked = if thorough { 96 } else { 24 };
-    for ti in 0..(n_trees + n_family + n_long + n_parked) {
-        let spec = if ti >= n_trees + n_family + n_long {
+    let n_special = if thorough { 108 } else { 36 };
+    for ti in 0..(n_trees + n_family + n_long + n_parked + n_special) {
+        let spec = if ti >= n_trees + n_family + n_long + n_parked {
+            let k = ti - n_trees - n_family - n_long - n_parked;
+            // checkpoints roll the tip back (C05 would only see the height decrease); the density
+            // bypass is a fork-choice matter (C05) and is also given to C03 for the consistency oracle
+            if (profile.prop == "C05" && k % 3 == 0) || (profile.prop == "C04" && k % 3 == 2) {
+                continue;
+            }
+            special_family(&mut rng, k)
+        } else if ti >= n_trees + n_family + n_long {
             parked_family(&mut rng, ti - n_trees - n_family - n_long)
         } else if ti >= n_trees + n_family {
             long_family(&mut rng, ti - n_trees - n_family)
@@ -1385,6 +1497,10 @@ pub async fn run_property(profile: &Profile, args: &Args) {
         let mut int = intern_tree(&t);
         let blocks_g = gallina_blocks(&t, &mut int);
         for oi in 0..orders_per_tree {
+            let oracle_only = t.spec.checkpoint.is_some() || t.spec.browser || t.spec.dup_input_at.is_some();
+            if t.spec.checkpoint.is_some() && oi > 0 {
+                continue; // the checkpoint scenario is defined for the tree order only
+            }
             let loading = t.spec.loading_completed;
             let mut order = if oi == 0 {
                 (0..t.blocks.len()).collect::<Vec<_>>()
@@ -1494,14 +1610,18 @@ pub async fn run_property(profile: &Profile, args: &Args) {
                         let effective = if id == "purge-disconnected-fork" { out.first_orphan_effect.unwrap_or(usize::MAX) } else { fo };
                         if k >= effective { Some(id) } else { None }
                     });
-                    match classify(profile.prop, &w, tainted).or(purge_id) {
+                    let cp_id = match t.spec.checkpoint {
+                        Some((trig, _, false)) if out.delivered.iter().position(|x| *x == trig).map(|p| k >= p).unwrap_or(false) => Some("checkpoint-mid-reorg"),
+                        _ => None,
+                    };
+                    match classify(profile.prop, &w, tainted).or(purge_id).or(cp_id) {
                         Some(id) => summary.known_hit(id, case_no, &what),
                         None => summary.oracle_failure(case_no, &what, &desc),
                     }
                 }
                 prev = o.clone();
             }
-            summary.count("generator", if ti >= n_trees + n_family + n_long { "parked" } else if ti >= n_trees + n_family { "long-chain" } else if family { "fork-family" } else { "random" });
+            summary.count("generator", if ti >= n_trees + n_family + n_long + n_parked { "oracle-only" } else if ti >= n_trees + n_family + n_long { "parked" } else if ti >= n_trees + n_family { "long-chain" } else if family { "fork-family" } else { "random" });
             summary.count("blocks", &format!("{}", t.blocks.len()));
             summary.count("gp", &format!("{}", t.spec.gp));
             summary.count("reorgs", &format!("{}", reorgs.min(4)));
@@ -1532,7 +1652,20 @@ pub async fn run_property(profile: &Profile, args: &Args) {
             // (a history is left out once a delivery that is not connected to the stored chain - an orphan,
             // or a block on a fork whose fork point was purged - has had an effect: from then on the node's
             // state is inconsistent by the listed findings and validity is no longer a static bit)
-            if out.first_orphan_effect.is_none() || std::env::var("VERIF_MODEL_ORPHANS").is_ok() {
+            if oracle_only {
+                let code_of = |blk: usize| out.delivered.iter().position(|x| *x == blk).and_then(|p| out.obs.get(p)).map(|o| o.code).unwrap_or(0);
+                if let Some((trig, _, clean)) = t.spec.checkpoint {
+                    summary.count("oracle_only_outcome", &format!("checkpoint expected_clean={} answer={}", clean, code_of(trig)));
+                } else if let Some(j) = t.spec.dup_input_at {
+                    summary.count("oracle_only_outcome", &format!("generate-fails answer={}", code_of(j)));
+                } else {
+                    let last = t.blocks.len() - 1;
+                    let adopted = out.obs.last().and_then(|o| o.snap.as_ref()).map(|sn| sn.tip_hash == t.blocks[last].hash).unwrap_or(false);
+                    summary.count("oracle_only_outcome", &format!("browser ticketless side chain adopted={}", adopted));
+                }
+                summary.count("oracle_only_family", if t.spec.checkpoint.is_some() { "checkpoint" } else if t.spec.browser { "browser-density-bypass" } else { "generate-fails" });
+            }
+            if !oracle_only && (out.first_orphan_effect.is_none() || std::env::var("VERIF_MODEL_ORPHANS").is_ok()) {
                 let rows_p: Vec<Vec<Vec<u64>>> = out
                     .rows
                     .iter()
